@@ -46,15 +46,15 @@ def replay_der(rec, ctx, np, P):
     xs = np.array([float(p) for p in e['pts']])
     val = np.array([float(v) for v in e['vals']])
     der = np.array([float(v) for v in e['ders']])
-    tol = 2e-10 * (1 + np.abs(der).max()) * (1 + n)
+    tol = 2e-10 * (1 + core.maxabs(der)) * (1 + n)
     fails = []
     try:
         fn = der_fn(P, e)
         if fn is not None:
             for form, x, w in (('1-D', xs.copy(), der), ('2-D', np.stack([xs, xs[::-1]]), np.stack([der, der[::-1]]))):
                 got = np.asarray(fn(x), dtype=float)
-                if got.shape != w.shape or np.abs(got - w).max() > tol:
-                    kind = 'sign' if got.shape == w.shape and np.abs(got + w).max() <= tol and np.abs(w).max() > 0 else 'value'
+                if got.shape != w.shape or core.maxabs(got - w) > tol:
+                    kind = 'sign' if got.shape == w.shape and core.maxabs(got + w) <= tol and core.maxabs(w) > 0 else 'value'
                     fails.append(('%s_der:%s:%s' % (fam, kind, PL.order_cls(n)), '%s n=%d %s: got %s want %s' % (fam, n, form, np.round(np.ravel(got), 8).tolist()[:6], np.round(np.ravel(w), 8).tolist()[:6])))
                     break
         elif fam == 'zernike':
@@ -66,9 +66,9 @@ def replay_der(rec, ctx, np, P):
                     for nrm in (True, False):
                         k = norm if nrm else 1.0
                         dr, dt = P.zernike_nm_der(n, sgn * m, xs.copy(), np.full_like(xs, th), norm=nrm)
-                        if np.abs(dr - k * der * az).max() > tol * k:
+                        if core.maxabs(dr - k * der * az) > tol * k:
                             fails.append(('zernike_nm_der:dr:%s' % ('m=0' if m == 0 else ('cos' if sgn > 0 else 'sin')), 'n=%d m=%d th=%g norm=%s: dr %s want %s' % (n, sgn * m, th, nrm, np.round(dr, 8).tolist(), np.round(k * der * az, 8).tolist())))
-                        if np.abs(dt - k * val * daz).max() > tol * k * (1 + m):
+                        if core.maxabs(dt - k * val * daz) > tol * k * (1 + m):
                             fails.append(('zernike_nm_der:dt:%s' % ('m=0' if m == 0 else ('cos' if sgn > 0 else 'sin')), 'n=%d m=%d th=%g norm=%s: dt %s want %s' % (n, sgn * m, th, nrm, np.round(dt, 8).tolist(), np.round(k * val * daz, 8).tolist())))
                     if fails:
                         break
@@ -94,13 +94,13 @@ def replay_clenshaw(rec, ctx, np, P):
         try:
             if j == 0:
                 got = P.jacobi_sum_clenshaw(s, float(a), float(b), xx)
-                if np.abs(np.asarray(got) - top[0]).max() > 1e-9 * scale:
+                if core.maxabs(np.asarray(got) - top[0]) > 1e-9 * scale:
                     fails.append(('jacobi_sum_clenshaw:value:%s' % ln, 'got %s want %r' % (np.asarray(got).tolist(), top[0])))
             else:
                 al = P.jacobi_sum_clenshaw_der(s, float(a), float(b), xx, j=j)
                 for jj in range(j + 1):
                     g = np.asarray(al[jj][0])
-                    if np.abs(g - top[jj]).max() > 1e-9 * scale:
+                    if core.maxabs(g - top[jj]) > 1e-9 * scale:
                         fails.append(('jacobi_sum_clenshaw_der:j=%s:row=%d:%s' % (j if j < 2 else '2+', jj, ln), 'alphas[%d][0] = %s, the %d-th derivative of the sum is %r' % (jj, g.tolist(), jj, top[jj])))
                         break
         except Exception as ex:
@@ -125,7 +125,7 @@ def replay_q_sums(T, ocon, ctx, np, P, svecs):
     """Explicit sums formed from the spec's exact per-mode values / derivatives vs the fast evaluators."""
     from prysm.polynomials import qpoly
     xs = np.array([float(p) for p in T[0][0]['pts']])
-    inner = (xs > 0) & (xs < 1)
+    inner = (xs >= 0) & (xs <= 1)          # the whole domain, vertex (u = 0) and edge (u = 1) included
     u = xs[inner]
     usq = u * u
     for cs in svecs:
@@ -140,10 +140,10 @@ def replay_q_sums(T, ocon, ctx, np, P, svecs):
         fails = []
         try:
             S, Sp = qpoly.compute_z_zprime_Qbfs(c.copy(), u.copy(), usq.copy())
-            tol = 1e-8 * (1 + np.abs(dz).max())
-            if np.abs(S - z).max() > tol:
+            tol = 1e-8 * (1 + core.maxabs(dz))
+            if core.maxabs(S - z) > tol:
                 fails.append(('compute_z_zprime_Qbfs:z:%s' % ln, 'z %s want %s' % (np.round(S, 8).tolist(), np.round(z, 8).tolist())))
-            if np.abs(Sp - dz).max() > tol:
+            if core.maxabs(Sp - dz) > tol:
                 fails.append(('compute_z_zprime_Qbfs:zprime:%s' % ln, 'dz/du %s want %s' % (np.round(Sp, 8).tolist(), np.round(dz, 8).tolist())))
         except Exception as ex:
             fails.append(('compute_z_zprime_Qbfs:raised:%s' % ln, '%s: %s' % (type(ex).__name__, ex)))
@@ -153,7 +153,7 @@ def replay_q_sums(T, ocon, ctx, np, P, svecs):
                     al = qpoly.clenshaw_qbfs_der(c.copy(), usq.copy(), j=j)
                     for jj in range(j + 1):
                         got = 2 * (al[jj][0] + al[jj][1])
-                        if np.abs(got - qd[jj]).max() > 1e-8 * (1 + np.abs(qd[jj]).max()):
+                        if core.maxabs(got - qd[jj]) > 1e-8 * (1 + core.maxabs(qd[jj])):
                             fails.append(('clenshaw_qbfs_der:j=%s:row=%d:%s' % (j if j < 2 else '2+', jj, ln), '2(al[%d][0]+al[%d][1]) = %s, d^%d/dx^%d of the sum = %s' % (jj, jj, np.round(got, 7).tolist(), jj, jj, np.round(qd[jj], 7).tolist())))
                             break
                 except Exception as ex:
@@ -165,10 +165,10 @@ def replay_q_sums(T, ocon, ctx, np, P, svecs):
             uc = np.array([float(p) for p in ocon[0]['pts']])[inner_c(ocon)]
             try:
                 S, Sp = qpoly.compute_z_zprime_Qcon(c.copy(), uc.copy(), uc * uc)
-                tol = 1e-8 * (1 + np.abs(dzc).max())
-                if np.abs(S - zc).max() > tol:
+                tol = 1e-8 * (1 + core.maxabs(dzc))
+                if core.maxabs(S - zc) > tol:
                     fails.append(('compute_z_zprime_Qcon:z:%s' % ln, 'z %s want %s' % (np.round(S, 8).tolist(), np.round(zc, 8).tolist())))
-                if np.abs(Sp - dzc).max() > tol:
+                if core.maxabs(Sp - dzc) > tol:
                     fails.append(('compute_z_zprime_Qcon:zprime:%s' % ln, 'dz/du %s want %s' % (np.round(Sp, 8).tolist(), np.round(dzc, 8).tolist())))
             except Exception as ex:
                 fails.append(('compute_z_zprime_Qcon:raised:%s' % ln, '%s: %s' % (type(ex).__name__, ex)))
@@ -200,9 +200,9 @@ def replay_q_sums(T, ocon, ctx, np, P, svecs):
             fails = []
             try:
                 gz, gdr, gdt = qpoly.compute_z_zprime_Q2d(list(c), ams, bms, u.copy(), t)
-                tol = 1e-8 * (1 + np.abs(dr).max() + np.abs(dt).max())
+                tol = 1e-8 * (1 + core.maxabs(dr) + core.maxabs(dt))
                 for nm, g, w in (('z', gz, z), ('dr', gdr, dr), ('dt', gdt, dt)):
-                    if np.abs(g - w).max() > tol:
+                    if core.maxabs(g - w) > tol:
                         fails.append(('compute_z_zprime_Q2d:%s:%s' % (nm, ln), '%s = %s want %s' % (nm, np.round(g, 7).tolist(), np.round(w, 7).tolist())))
             except Exception as ex:
                 fails.append(('compute_z_zprime_Q2d:raised:%s' % ln, '%s: %s' % (type(ex).__name__, ex)))
@@ -220,7 +220,7 @@ def replay_q_sums(T, ocon, ctx, np, P, svecs):
                         got = 0.5 * al[jj][0]
                         if m == 1 and N > 2:
                             got = got - 2 / 5 * al[jj][3]
-                        if np.abs(got - qd[jj]).max() > 1e-8 * (1 + np.abs(qd[jj]).max()):
+                        if core.maxabs(got - qd[jj]) > 1e-8 * (1 + core.maxabs(qd[jj])):
                             ctx.fail('Der:clenshaw_q2d_der:j=%s:row=%d:m=%s:%s' % (j if j < 2 else '2+', jj, m if m < 2 else '2+', ln),
                                      'coefs=%s m=%d j=%d: radial sum derivative %d: %s want %s' % (list(cs), m, j, jj, np.round(got, 7).tolist(), np.round(qd[jj], 7).tolist()), {'coefs': list(cs), 'm': m, 'j': j})
                             break
@@ -232,7 +232,7 @@ def replay_q_sums(T, ocon, ctx, np, P, svecs):
 def inner_c(ocon):
     import numpy as np
     xs = np.array([float(p) for p in ocon[0]['pts']])
-    return (xs > 0) & (xs < 1)
+    return (xs >= 0) & (xs <= 1)
 
 
 def run(ctx, replay=None, selftest=False):
@@ -289,4 +289,4 @@ def run(ctx, replay=None, selftest=False):
     ctx.sample({'fam': e['fam'], 'n': e['n'], 'points': [str(p) for p in e['pts']], 'exact_derivative_values': [str(v) for v in e['ders']]})
     ctx.bounds = {'orders': 8 if quick else 16, 'clenshaw': {'params': CL_PARAMS[ctx.tier], 'svecs': SVECS, 'xs': CL_XS, 'max_j': 3}, 'q': 'm<=3,n<=5' if quick else 'm<=5,n<=9'}
     ctx.assumptions += ['only the DOCUMENTED entries of the Clenshaw tables are compared (alphas[jj][0]; 2(alphas[jj][0]+alphas[jj][1]) for Qbfs; the radial-sum combination used by compute_z_zprime_Q2d for 2D-Q)',
-                        'sag-and-slope evaluators are compared at rational points strictly inside (0, 1)']
+                        'sag-and-slope evaluators are compared at rational points of [0, 1], vertex and edge included']
